@@ -11,6 +11,7 @@
 //   dtor_drain                      on T0 while ~ThreadPool is in progress (the destructor's own drain loops)
 //   inline_on_pool_thread           inline, and the submitting thread is a pool worker (pool-recursive load rule)
 #include "mc_harness.h"
+#include "submit_cover.h"
 #include "submit_stacknorm.h"
 #include <dispenso/thread_pool.h>
 
@@ -62,17 +63,17 @@ struct Counters {
     int w;
     if (self == submitter[id].get() && in_call[id].get()) {
       w = wInline;
-      mc::cover(bulk ? "inline_bulk" : (kind[id].get() == kFq ? "inline_fq_zero_threads" : "inline_schedule"));
-      if (!is_harness_thread(self)) mc::cover("inline_on_pool_thread");
+      submit_cover::mark(bulk ? "inline_bulk" : (kind[id].get() == kFq ? "inline_fq_zero_threads" : "inline_schedule"));
+      if (!is_harness_thread(self)) submit_cover::mark("inline_on_pool_thread");
     } else if (self == t0_id && destroying.get()) {
       w = wDtor;
-      mc::cover("dtor_drain");
+      submit_cover::mark("dtor_drain");
     } else if (!is_harness_thread(self)) {
       w = wWorker;
-      mc::cover(bulk ? "worker_bulk" : "worker_single");
+      submit_cover::mark(bulk ? "worker_bulk" : "worker_single");
     } else {
       w = wOther; // a producer thread ran somebody else's task inside one of its own calls: not expected, not forbidden
-      mc::cover("ran_on_other_producer");
+      submit_cover::mark("ran_on_other_producer");
     }
     where[id].set(w);
   }
@@ -85,12 +86,12 @@ void run_program(dispenso::ThreadPool& pool, Counters& c, int producer, const st
       int id = c.fresh(producer, 1, kSingle);
       pool.schedule([&c, id] { c.run(id); });
       c.call_done(id, 1);
-      mc::cover("schedule");
+      submit_cover::mark("schedule");
     } else if (op == 'q') {
       int id = c.fresh(producer, 1, kFq);
       pool.schedule([&c, id] { c.run(id); }, dispenso::ForceQueuingTag());
       c.call_done(id, 1);
-      mc::cover("schedule_fq");
+      submit_cover::mark("schedule_fq");
     } else if (op == 'b') {
       int k = prog[++pc] - '0';
       int base = c.fresh(producer, k, kBulk);
@@ -99,7 +100,7 @@ void run_program(dispenso::ThreadPool& pool, Counters& c, int producer, const st
         return [&c, id] { c.run(id); };
       });
       c.call_done(base, k);
-      mc::cover("schedule_bulk");
+      submit_cover::mark("schedule_bulk");
     }
   }
 }
@@ -117,6 +118,7 @@ std::string expand(const std::string& prog) {
 } // namespace
 
 MC_HARNESS(submit) {
+  submit_cover::reset();
   long n = P("n", 1), mult = P("mult", 32);
   Counters c;
   c.t0_id = mc_self_id();
@@ -159,4 +161,5 @@ MC_HARNESS(submit) {
   for (int i = 0; i < kMaxTasks; i++)
     if (c.used[i].get()) mc::observe(keys[i], c.where[i].get());
   mc::observe("tasks", total);
+  submit_cover::flush();
 }
